@@ -72,6 +72,7 @@ int
 dwfl_context::get_machine () const
 {
   int machine = EM_NONE;
+  bool seen = false;
   GElf_Addr bias;
   for (auto it = dwfl_module_iterator {m_dwfl.get ()};
        it != dwfl_module_iterator::end (); ++it)
@@ -80,13 +81,15 @@ dwfl_context::get_machine () const
 	GElf_Ehdr ehdr;
 	if (gelf_getehdr (elf, &ehdr) == nullptr)
 	  throw_libelf ();
-	assert (machine == EM_NONE || machine == ehdr.e_machine);
+	assert (! seen || machine == ehdr.e_machine);
 	machine = ehdr.e_machine;
+	seen = true;
       }
     else
       throw_libdwfl ();
 
   // This better be true.  That symbol must have come from somewhere.
-  assert (machine != EM_NONE);
+  // (But the file can legitimately say EM_NONE.)
+  assert (seen);
   return machine;
 }
